@@ -477,3 +477,26 @@ Definition batch_ok (c : cfg) (o : op) : Prop :=
   | _ => True
   end.
 Definition sound (v : variant) : Prop := f_shared v = SharedSnapshot /\ f_prev v = PrevFeed /\ f_wm v = WmOwn.
+
+(** ** LatestOnly: what is required for a change that LatestOnly skips *)
+(** the entry [x] at position [p] of feed [f] is superseded by a later change of the same entity (LatestOnly
+    sources do not process it) *)
+Definition skipped (c : cfg) (f : feed) (p : Z) (x : ver) : bool :=
+  c_latest c && superseded x (dropz (p + 1) f).
+(** for a processed change everything of [required]; for a skipped one still the main entities its entity was
+    connected to through a first outgoing hop at the previous run (what it is connected to NOW is required for the
+    entity's latest change, which is not skipped) *)
+Definition required_l (c : cfg) (h : hub) (dp : dep) (since p : Z) (x : ver) (m : N) : Prop :=
+  ((skipped c (feed_of h (d_ds dp)) p x = false /\ connected_now h dp (v_id x) m)
+   \/ connected_prev h dp since (v_id x) m)
+  /\ main_live h (c_main c) m = true.
+Definition covered_l (c : cfg) (n : nat) (tr : list ev) (dp : dep) (p : Z) : Prop :=
+  exists tr1 tr2 tr3 h1 job1 x,
+    tr = tr1 ++ tr2 ++ tr3 /\ replay tr1 (s_hub (init_state n)) None = (h1, job1) /\
+    nthz (feed_of h1 (d_ds dp)) p = Some x /\
+    ((exists tk1, no_append tr2 /\ job1 = Some tk1 /\ (dtok tk1 (d_ds dp) <= p)%Z /\
+                  forall m, required_l c h1 dp (dtok tk1 (d_ds dp)) p x m -> In m (ents_of tr2))
+     \/ (forall m, main_live h1 (c_main c) m = true -> In m (ents_of tr2))).
+(** the three repairs, plus the fourth one when the source is LatestOnly *)
+Definition sound_l (v : variant) (c : cfg) : Prop :=
+  sound v /\ (c_latest c = true -> f_skip v = SkipPrev).
